@@ -1117,25 +1117,64 @@ def structural_programs():
                     yield t, p, q, c, c.replace("{S}", base)
 
 
-def structural_one(ctx, pair, t, p, q, c, text, label="structural"):
+def structural_one(ctx, pair, t, p, q, c, text, label="structural", setup=None):
     """one text program of the sweep under both backends (oracle only: these verbs are not in
     the Lean grammar)"""
-    case = dict(kind="structural", template=t, P=p, Q=q, consumer=c, program=text, setup=SWEEP_SETUP)
+    case = dict(kind="structural", family=label, template=t, P=p, Q=q, consumer=c, program=text,
+                setup=SWEEP_SETUP if setup is None else setup)
     try:
         a, b = pair.run(text)
-        ctx.count(("structural", text))
-        ctx.bump("structural:" + ("both-return" if a[0] == b[0] == 'ok' else
+        ctx.count((label, text))
+        ctx.bump(label + ":" + ("both-return" if a[0] == b[0] == 'ok' else
                                   "both-raise" if a[0] == b[0] else "one-sided"))
         if a[0] == 'ok' and b[0] == 'ok':
             d = compare(a[1], b[1]) or text_compare(a[2], b[2])
             if d:
                 sp, sq = pair.run1(pair.kn, p), pair.run1(pair.kn, q)
-                ctx.oracle_fail(f"structural:{t}:{sig(sp[1]) if sp[0] == 'ok' else 'err'},"
+                ctx.oracle_fail(f"{label}:{t}:{sig(sp[1]) if sp[0] == 'ok' else 'err'},"
                                 f"{sig(sq[1]) if sq[0] == 'ok' else 'err'}:{d[0]}",
                                 case, f"numpy: {a[2]}", f"torch: {b[2]}",
                                 f"{d[0]}: {d[1]} (same program, both backends return)")
     except Exception as ex:      # decoding what the real code produced must never stop the run
-        ctx.mismatch("harness: structural sweep could not judge the outcome", case, "", f"{type(ex).__name__}: {ex}")
+        ctx.mismatch(f"harness: {label} family could not judge the outcome", case, "", f"{type(ex).__name__}: {ex}")
+
+
+# --------------------------------------------------------------------------- verbs that round x negative operands
+
+ROUND_SETUP = ["na::(-7)", "pa::7", "nr::(-7.5)", "nv::[7 -7 9 -9]", "dv::[2 -2 -2 2]", "rv::[7.5 -7.5 2.5 -0.5]",
+               "nm::[[7 -7] [-9 9]]", "dm::[[2 -2] [-2 2]]"]
+ROUND_ATOMS = ["7", "(-7)", "9", "(-9)", "2", "(-2)", "3", "(-3)", "7.5", "(-7.5)", "(-2.5)", "na", "pa", "nr"]
+ROUND_VECTORS = ["[7 -7 9 -9]", "[-7 7 -9 9]", "[2 -2 -2 2]", "[7.5 -7.5 2.5 -0.5]", "nv", "dv", "rv"]
+ROUND_MATRICES = ["[[7 -7] [-9 9]]", "[[2 -2] [-2 2]]", "nm", "dm"]
+# Integer-Divide truncates toward zero, Remainder takes the sign of the dividend, Floor rounds toward
+# minus infinity, Divide is exact: every one of them must see quotients of either sign on both backends
+ROUND_DYADS = ["({P}):%({Q})", "({P})!({Q})", "({P})%({Q})", "_(({P})%({Q}))", "(({Q})*(({P}):%({Q})))+(({P})!({Q}))"]
+ROUND_MONADS = ["_({P})", "_(({P})%2)", "_(({P})*0.5)", "-({P})", "_(-({P}))", "(({P}):%2),(({P})!2)"]
+
+
+def rounding_programs():
+    groups = [ROUND_ATOMS, ROUND_VECTORS, ROUND_MATRICES]
+    for t in ROUND_MONADS:
+        for g in groups:
+            for p in g:
+                yield t, p, "", t.replace("{P}", p)
+    for t in ROUND_DYADS:
+        for gi, g in enumerate(groups):
+            for p in g:
+                for hi, h in enumerate(groups):
+                    if gi and hi and gi != hi:
+                        continue                     # vector with matrix: broadcasting between ranks
+                    for q in h:
+                        yield t, p, q, t.replace("{P}", p).replace("{Q}", q)
+
+
+def rounding_family(ctx):
+    pair = Pair()
+    for st in ROUND_SETUP:
+        pair.kn(st)
+        pair.kt(st)
+    for t, p, q, text in rounding_programs():
+        structural_one(ctx, pair, t, p, q or p, "{S}", text, label="rounding", setup=ROUND_SETUP)
 
 
 def structural_sweep(ctx, quick):
@@ -1219,6 +1258,8 @@ def run(ctx):
         acceptance(ctx, pair)
         # 1b. structural dyads with empty operands of every provenance (kinds survive a Join)
         structural_sweep(ctx, quick)
+        # 1c. every verb that rounds, with operands and quotients of either sign (every run)
+        rounding_family(ctx)
         # 2. hypothesis of the theorems: the library primitives, against real torch and numpy
         if drv is not None:
             bad = micro(ctx, drv, 40 if quick else 400)
@@ -1264,7 +1305,8 @@ def replay(ctx, case):
             for st in c.get("setup", SWEEP_SETUP):
                 pair.kn(st)
                 pair.kt(st)
-            structural_one(ctx, pair, c["template"], c["P"], c["Q"], c["consumer"], c["program"])
+            structural_one(ctx, pair, c["template"], c["P"], c["Q"], c["consumer"], c["program"],
+                           label=c.get("family", "structural"), setup=c.get("setup"))
             print("replay:", c["program"], pair.run(c["program"]))
         elif "expr" in c:
             env = {n: U.from_wire(t) for n, t in c["env"].items()}
